@@ -1,2 +1,139 @@
-/- placeholder driver for C17: replaced when the check for C17 is built -/
-def main : IO Unit := IO.println "not-built"
+import CashewsVerif.Driver.Proto
+import CashewsVerif.Model.Disable
+/- Driver for C17: routing table + control state + public commands, one answer per request line.
+
+Strings: `-` = "", otherwise code points joined by `.` (e.g. `97.58` = "a:").
+Command sets: `-` = none given, otherwise `Command.value`s joined by `,`. -/
+open CashewsVerif CashewsVerif.Proto CashewsVerif.Route CashewsVerif.Disable
+
+structure St where
+  t : Table
+  w : World
+
+def St.fresh : St := ⟨Table.empty, World.init true⟩
+
+def parseStr? (s : String) : Option (List Nat) :=
+  if s = "-" then some [] else allSome ((s.splitOn ".").map String.toNat?)
+
+def showStr (s : List Nat) : String :=
+  if s.isEmpty then "-" else ".".intercalate (s.map toString)
+
+def parseCmd? (s : String) : Option Cmd := Cmd.all.find? fun c => c.name == s
+
+def parseCmds? (s : String) : Option (List Cmd) :=
+  if s = "-" then some [] else allSome ((s.splitOn ",").map parseCmd?)
+
+def showBool (b : Bool) : String := if b then "T" else "F"
+
+def showTarget : Target → String
+  | .raw b => s!"raw{b}"
+  | .tx b => s!"tx{b}"
+
+def showCall (c : Call) : String :=
+  s!"{showTarget c.target}:{c.cmd.name}:" ++ "+".intercalate (c.keys.map showStr)
+
+def showCalls (cs : List Call) : String :=
+  if cs.isEmpty then "-" else ";".intercalate (cs.map showCall)
+
+def showSlot : Slot → String
+  | .dflt => "D"
+  | .resp c p => s!"r{c}.{p}"
+  | .missing => "X"
+
+def showRes : Res → String
+  | .dflt => "D"
+  | .none_ => "N"
+  | .emptyStream => "E"
+  | .resp c => s!"R{c}"
+  | .stream c => s!"S{c}"
+  | .many slots => "M[" ++ ",".intercalate (slots.map showSlot) ++ "]"
+  | .sum cs => "SUM[" ++ "+".intercalate (cs.map toString) ++ "]"
+
+def showOptNat : Option Nat → String
+  | none => "NC"
+  | some b => toString b
+
+/-- the specification's routing: longest matching prefix by a scan, then the dict -/
+def specRoute (t : Table) (key : List Nat) : Option Nat :=
+  (longestMatch t.prefixes key).bind fun p => dictGet p t.regs
+
+def parseFCmd? (name : String) (args : List String) : Option FCmd :=
+  match name, args with
+  | "get_many", ks => (allSome (ks.map parseStr?)).map .getMany
+  | "set_many", ks => (allSome (ks.map parseStr?)).map .setMany
+  | "delete_many", ks => (allSome (ks.map parseStr?)).map .deleteMany
+  | "clear", [] => some .clear
+  | "get_keys_count", [] => some .keysCount
+  | n, [k] => do
+    let c ← parseCmd? n
+    let k ← parseStr? k
+    pure (.keyed c k)
+  | _, _ => none
+
+def parseTx? (s : String) : Option Bool :=
+  if s = "0" then some false else if s = "1" then some true else none
+
+def step (st : St) (line : String) : St × String :=
+  match words line with
+  | ["case"] => (St.fresh, "ok")
+  | ["cmds"] => (st, ",".intercalate (Cmd.all.map Cmd.name))
+  | ["reg", p, b] =>
+    match parseStr? p, b.toNat? with
+    | some p, some b => ({ st with t := st.t.add p b }, "ok")
+    | _, _ => (st, "bad-op")
+  | ["sorted"] => (st, "sorted=" ++ ",".intercalate (st.t.sorted.map showStr))
+  | ["route", k] =>
+    match parseStr? k with
+    | some k => (st, s!"model={showOptNat (st.t.getBackend k)} spec={showOptNat (specRoute st.t k)}")
+    | none => (st, "bad-op")
+  | ["fork", p, c] =>
+    match p.toNat?, c.toNat? with
+    | some p, some c => ({ st with w := (ctlStep st.t st.w (.fork p c)).1 }, "ok")
+    | _, _ => (st, "bad-op")
+  | ["dec", c, key, n] =>
+    -- n calls of a function decorated with @cache (fresh decorator state)
+    match c.toNat?, parseStr? key, n.toNat? with
+    | some c, some key, some n =>
+      match decoratedCalls st.t st.w c key n DecSt.init with
+      | none => (st, "NC")
+      | some d => (st, s!"execs={d.execs} calls={showCalls d.calls}")
+    | _, _, _ => (st, "bad-op")
+  | ["disable", c, p, cmds] =>
+    match c.toNat?, parseStr? p, parseCmds? cmds with
+    | some c, some p, some cmds =>
+      let r := ctlStep st.t st.w (.disable c cmds p)
+      ({ st with w := r.1 }, if r.2 then "NC" else "ok")
+    | _, _, _ => (st, "bad-op")
+  | ["enable", c, p, cmds] =>
+    match c.toNat?, parseStr? p, parseCmds? cmds with
+    | some c, some p, some cmds =>
+      let r := ctlStep st.t st.w (.enable c cmds p)
+      ({ st with w := r.1 }, if r.2 then "NC" else "ok")
+    | _, _, _ => (st, "bad-op")
+  | ["exitdis", c, p, cmds] =>
+    match c.toNat?, parseStr? p, parseCmds? cmds with
+    | some c, some p, some cmds =>
+      let r := ctlStep st.t st.w (.exitDisabling c cmds p)
+      ({ st with w := r.1 }, if r.2 then "NC" else "ok")
+    | _, _, _ => (st, "bad-op")
+  | ["isdis", c, p, cmds] =>
+    match c.toNat?, parseStr? p, parseCmds? cmds with
+    | some c, some p, some cmds =>
+      match facadeIsDisable st.t st.w c cmds p with
+      | none => (st, "NC")
+      | some b => (st, showBool b)
+    | _, _, _ => (st, "bad-op")
+  | ["isfull", c] =>
+    match c.toNat? with
+    | some c => (st, showBool (facadeFullDisable st.t st.w c))
+    | none => (st, "bad-op")
+  | "cmd" :: c :: tx :: name :: args =>
+    match c.toNat?, parseTx? tx, parseFCmd? name args with
+    | some c, some tx, some f =>
+      match exec st.t st.w c tx f with
+      | none => (st, "NC")
+      | some (r, cs) => (st, s!"res={showRes r} calls={showCalls cs}")
+    | _, _, _ => (st, "bad-op")
+  | _ => (st, "bad-op")
+
+def main : IO Unit := mainLoop step St.fresh
